@@ -338,6 +338,30 @@ def check_progress(p, reach, r):
         else:
             r.fail('C20.R3', key, f'env.process() is given `{tgt.qual}(...)`, which is not a generator function: ValueError at run time '
                                   f'(or an endless plain loop inside the call)', src(fi.module), call.lineno)
+    # (a') every node, and every edge with a state machine of its own (the conveyors), starts its behaviour process exactly once at construction
+    starters = list(tables.node_classes(p)) + [ci for ci in tables.edge_classes(p) if ci.name == 'ConveyorBelt']
+    for ci in starters:
+        beh = p.method(ci.key, 'behaviour')
+        if beh is None or not beh.is_generator:
+            continue
+        key = f'{ci.label}.__init__::starts-behaviour'
+        n = 0
+        line = ci.node.lineno
+        for c in p.mro(ci.key):
+            init = c.methods.get('__init__')
+            if init is None:
+                continue
+            for x in walk_no_nested(init.node):
+                if isinstance(x, ast.Call) and isinstance(x.func, ast.Attribute) and x.func.attr == 'process' and x.args \
+                        and isinstance(x.args[0], ast.Call) and ast.unparse(x.args[0].func) == 'self.behaviour':
+                    n += 1
+                    line = x.lineno
+        if n == 1:
+            r.ok('C20.R3', key, 'env.process(self.behaviour()) once in the constructor', src(ci.module), line)
+        else:
+            r.fail('C20.R3', key, f'the constructor starts the behaviour process {n} time(s): ' +
+                   ('the component is inert, items reaching it are never handled and the line stops' if n == 0 else 'two state machines fight over the same component'),
+                   src(ci.module), line)
     # (b) every iteration of a process loop suspends: path based on all generator roots
     roots = []
     for w in nodewalk.walks(p):
